@@ -18,7 +18,12 @@ import Uft.Model.Graph
    graphviz <exename> <version> <cmdline|~> | syms | tasks | recs -> hex of the output
    mermaid <exename> | syms | tasks | recs                    -> hex of the edge lines
    graph <exename> | syms | tasks | recs   -> "depth:namehex:calls:time:self …" pre-order
+   tunit <fixed> <ns>                -> "<whole> <three-digit part> <unit index>"  (print_time_unit, ns > 0)
+   tsval <ns>                        -> "<hex of tsText> <digitsVal int part> <digitsVal fraction>"
    recs: E:<tid>:<symidx>:<time>  X:<tid>:<symidx>:<time>
+         scheduling events are records named linux:schedule (E at sched-out, X at sched-in);
+         P:<tid>:<symidx>:<time>  the sched-out of a pre-empted task as dump_replay_event treats it now: seen by the
+                                  time accounting, not handed to the dump callbacks (C15-DUMP-PREEMPT); repaired: an E
 -/
 namespace Driver.C15
 open Uft.Json Uft.Graph
@@ -55,7 +60,9 @@ def parseRecs (syms : Array (List Nat)) (ws : List String) : Option (List Rec) :
     | some l, [k, t, s, tm] =>
       match t.toNat?, s.toNat?, tm.toNat? with
       | some t, some s, some tm =>
-        if k = "E" ∨ k = "X" then some (⟨t, k = "E", syms.getD s [], tm⟩ :: l) else none
+        if k = "E" ∨ k = "X" then some (⟨t, k = "E", syms.getD s [], tm⟩ :: l)
+        else if k = "P" then some (⟨t, true, syms.getD s [] ++ [0], tm⟩ :: l)
+        else none
       | _, _, _ => none
     | _, _ => none) (some [])
 
@@ -70,7 +77,9 @@ def trace (syms tasks recs : List String) : Option (List Task × List Out) :=
   match parseSyms syms, parseTasks tasks with
   | some sy, some ts =>
     match parseRecs sy recs with
-    | some rs => some (ts, outs (ts.map (·.tid)) rs)
+    | some rs =>
+      -- P: the entry of a pre-empted schedule as the dump callbacks get it now (not at all)
+      some (ts, dropEntries isPreMark (outs (ts.map (·.tid)) rs))
     | none => none
   | _, _ => none
 
@@ -178,6 +187,19 @@ def handle (ws : List String) : String :=
     match bytes exe, trace syms tasks recs with
     | some exe, some (_, os) => hex (mermaidEdges (build none (G.init (basename exe)) os).root)
     | _, _ => "bad-op"
+  | [["tunit", f, n]] =>
+    match n.toNat? with
+    | some ns => let r := timeUnit (f = "1") ns
+                 s!"{r.1} {r.2.1} {r.2.2}"
+    | none => "bad-op"
+  | [["tsval", n]] =>
+    match n.toNat? with
+    | some t =>
+      let txt := tsText t
+      let ip := txt.takeWhile (· ≠ 46)
+      let fp := (txt.dropWhile (· ≠ 46)).drop 1
+      s!"{hex txt} {digitsVal ip} {digitsVal fp}"
+    | none => "bad-op"
   | [["graph", exe], syms, tasks, recs] =>
     match bytes exe, trace syms tasks recs with
     | some exe, some (_, os) =>
